@@ -1,3 +1,147 @@
-import Gp.Model.Layers.Udp
+import Gp.Lemmas.Layers.UdpRt
+/-
+  C06 for layers/udp.go (engine `ludp`): writing a UDP layer over a payload with FixLengths and
+  ComputeChecksums and decoding the bytes again yields the same public fields and the same
+  payload, no error, no truncation flag; every decoded layer is `wf`; serialising the decoded
+  layer once more reproduces the bytes.
+
+  Hypotheses (each with a concrete witness below):
+   * `wf l`            — the four public fields are in uint16 range (always true in Go);
+   * `pseudoOk l.pseudo` — SetNetworkLayerForChecksum was called with usable addresses
+                          (ComputeChecksums cannot work otherwise: SerializeTo returns an error,
+                          see C07.serialize_ok_iff);
+   * `fits l.pseudo n`  — "where the protocol allows": a payload above 65527 bytes needs the
+                          IPv6 jumbogram form (Length 0); over IPv4 the 16-bit Length cannot
+                          represent it (`oversize_not_representable` shows what happens then).
+-/
 namespace Gp.C06.Udp
+open Gp Gp.Udp Gp.SBuf
+
+/-- Every successfully decoded layer is well-formed (all fields in range)… -/
+theorem decoded_wf (old : Layer) (data foreign : Bytes) (l : Layer) (t : Bool)
+    (h : decodeUdp old data foreign = .ok (l, t)) : wf l := by
+  unfold decodeUdp at h
+  rw [decode_eq] at h
+  dsimp only at h
+  split at h
+  · cases h
+  · rename_i he
+    cases h
+    exact (decodeSpec_shape old data (by simpa using he)).wf
+
+/-- … and has the full shape of a parsed header: Contents are the first 8 input bytes and equal
+    the big-endian rendering of the fields, Length is 0 or ≥ 8, Contents ++ Payload is a prefix
+    of the input, and without truncation Length is 0 (payload = everything) or exact. -/
+theorem decoded_shape (old : Layer) (data foreign : Bytes) (l : Layer) (t : Bool)
+    (h : decodeUdp old data foreign = .ok (l, t)) : DecodedShape data l t := by
+  unfold decodeUdp at h
+  rw [decode_eq] at h
+  dsimp only at h
+  split at h
+  · cases h
+  · rename_i he
+    cases h
+    exact decodeSpec_shape old data (by simpa using he)
+
+/-- Round trip.  For any buffer `b` holding the payload, any old layer object and any spare
+    capacity on the decoding side. -/
+theorem roundtrip (l : Layer) (b : SBuf) (hI : Gp.C18.Inv b) (hw : wf l) (hp : pseudoOk l.pseudo)
+    (hf : fits l.pseudo (contents b).length) (old : Layer) (foreign : Bytes) :
+    ∃ b' lf l',
+      serializeUdp l b true true = .ok (b', lf) ∧                 -- no error on the way out
+      decodeUdp old (contents b') foreign = .ok (l', false) ∧     -- no error, no truncation flag
+      sameFields l' lf ∧                                          -- l' ≈ fixed l
+      l'.payload = contents b ∧                                   -- same payload
+      l'.contents = (contents b').take 8 ∧
+      lf.srcPort = l.srcPort ∧ lf.dstPort = l.dstPort ∧ lf.pseudo = l.pseudo ∧
+      lf.length = fixedLength l.pseudo (contents b).length ∧
+      (lf.length = (contents b).length + 8 ∨ (lf.length = 0 ∧ (contents b).length + 8 > 65535)) ∧
+      wf lf := by
+  obtain ⟨⟨x, lf⟩, hs⟩ := serializeSpec_ok_of l (contents b) true true (fun _ => hp)
+  have hv := serialize_spec l b true true hI
+  rw [hs] at hv
+  obtain ⟨b', hb, hc⟩ := view_ok _ _ _ hv
+  have hx := serializeSpec_ok_bytes l lf _ _ true true hs
+  -- the mutated layer
+  have hlf : lf.srcPort = l.srcPort ∧ lf.dstPort = l.dstPort ∧ lf.pseudo = l.pseudo ∧
+      lf.length = fixedLength l.pseudo (contents b).length ∧ lf.checksum < 65536 := by
+    simp only [serializeSpec, fixLen, if_true] at hs
+    revert hs
+    generalize computeChecksum _ _ = r
+    cases r <;> intro hs <;> cases hs
+    exact ⟨rfl, rfl, rfl, rfl, emitChecksum_lt _⟩
+  obtain ⟨e1, e2, e3, e4, e5⟩ := hlf
+  have hwf : wf lf := ⟨e1 ▸ hw.1, e2 ▸ hw.2.1, e4 ▸ fixedLength_lt _ _, e5⟩
+  have hlen := fixedLength_fits l.pseudo (contents b).length hf
+  have hl : lf.length = 0 ∨ lf.length = (contents b).length + 8 := by
+    rcases hlen with ⟨h0, _⟩ | ⟨h1, _⟩
+    · left; rw [e4, h0]
+    · right; rw [e4, h1]
+  refine ⟨b', lf, _, hb, ?_, ?_⟩
+  · unfold decodeUdp
+    rw [decode_eq, hc, hx, decodeSpec_header old lf (contents b) hwf hl]
+  · refine ⟨⟨rfl, rfl, rfl, rfl⟩, rfl, ?_, e1, e2, e3, e4, ?_, hwf⟩
+    · rw [hc, hx]; simp [header, putBe16]
+    · rcases hlen with ⟨h0, hbig⟩ | ⟨h1, _⟩
+      · right; exact ⟨by rw [e4, h0], hbig⟩
+      · left; rw [e4, h1]
+
+/-- Writing the decoded layer again (same network layer for the checksum, any well-formed buffer
+    holding the decoded payload) reproduces the same bytes and the same field values. -/
+theorem reserialize_fixpoint (l : Layer) (b : SBuf) (hI : Gp.C18.Inv b) (hw : wf l) (hp : pseudoOk l.pseudo)
+    (hf : fits l.pseudo (contents b).length) (old : Layer) (foreign : Bytes)
+    (b' : SBuf) (lf l' : Layer) (hs : serializeUdp l b true true = .ok (b', lf))
+    (hd : decodeUdp old (contents b') foreign = .ok (l', false))
+    (b₂ : SBuf) (hI₂ : Gp.C18.Inv b₂) (hc₂ : contents b₂ = l'.payload) :
+    ∃ b'' l'', serializeUdp { l' with pseudo := l.pseudo } b₂ true true = .ok (b'', l'') ∧
+      contents b'' = contents b' ∧ sameFields l'' l' := by
+  obtain ⟨b1, lf1, l1, hs1, hd1, hsame, hpay, _, _, _, e3, _, _, _⟩ := roundtrip l b hI hw hp hf old foreign
+  rw [hs] at hs1; cases hs1
+  rw [hd] at hd1; cases hd1
+  -- serialising lf again is a fixpoint; l' has the same fields and pseudo as lf
+  have hv := serialize_spec l b true true hI
+  rw [hs] at hv
+  simp only [view] at hv
+  have hid := serializeSpec_idem l lf _ _ true true hv.symm
+  have hcong := serializeSpec_bytes_congr { l' with pseudo := l.pseudo } lf (contents b) true true hsame e3.symm
+  rw [hid] at hcong
+  have hv2 := serialize_spec { l' with pseudo := l.pseudo } b₂ true true hI₂
+  rw [hc₂, hpay] at hv2
+  cases hr : serializeSpec { l' with pseudo := l.pseudo } (contents b) true true with
+  | err e => rw [hr] at hcong; cases hcong
+  | panic k => rw [hr] at hcong; cases hcong
+  | ok r =>
+    obtain ⟨x, l''⟩ := r
+    rw [hr] at hcong hv2
+    simp only [Res.ok.injEq] at hcong
+    obtain ⟨b'', hb'', hcb⟩ := view_ok _ _ _ hv2
+    refine ⟨b'', l'', hb'', by rw [hcb, hcong], ?_⟩
+    -- fields of l'': ports kept, length and checksum determined by the bytes
+    have hbytes := serializeSpec_ok_bytes _ _ _ _ true true hr
+    have hbytes' := serializeSpec_ok_bytes _ _ _ _ true true hid
+    rw [hcong, hbytes'] at hbytes
+    have hh : header lf = header l'' := List.append_cancel_right hbytes
+    have hwl'' : wf l'' := by
+      simp only [serializeSpec, fixLen, if_true] at hr
+      revert hr
+      generalize computeChecksum _ _ = r
+      cases r <;> intro hr <;> cases hr
+      have hw' := decoded_wf old _ foreign l' false hd
+      exact ⟨hw'.1, hw'.2.1, fixedLength_lt _ _, emitChecksum_lt _⟩
+    have hwlf : wf lf := by
+      obtain ⟨_, _, _, _, _, _, _, _, _, _, _, _, _, hwf⟩ := roundtrip l b hI hw hp hf old foreign
+      rw [hs] at *
+      rename_i hx _ _ _ _ _ _ _ _ _
+      cases hx; exact hwf
+    exact header_inj_of_wf l'' l' lf hwl'' hwlf hh hsame
+
+/-- Without `fits` the claim is not made — and is in fact false: over IPv4 a 65528-byte payload
+    wraps the 16-bit Length to 0, which the decoder reads as the jumbogram form. -/
+theorem oversize_length_wraps : fixedLength (.v4 [1, 2, 3, 4] [5, 6, 7, 8]) 65528 = 0 := by decide
+
+/-! Non-vacuity. -/
+def exL : Layer := { Layer.fresh with srcPort := 53, dstPort := 35181, length := 7, checksum := 1, pseudo := .v6 (List.replicate 16 1) (List.replicate 16 2) }
+example : wf exL ∧ pseudoOk exL.pseudo ∧ fits exL.pseudo 70000 ∧ fits (.v4 [1, 2, 3, 4] [5, 6, 7, 8]) 1472 := by decide
+example : ∃ l t, decodeUdp exL [0, 53, 0x89, 0x6d, 0, 9, 0x75, 0x4a, 0xb8, 0xd8] [] = .ok (l, t) := ⟨_, _, by decide⟩
+
 end Gp.C06.Udp
